@@ -416,15 +416,29 @@ def normalise_function(fn: ast.FunctionDef, is_pure_call=None):
         is_pure_call = default_purity(None, None)
     count = [0]
 
-    def block(stmts):
+    def block(stmts, loop_body=False):
         res = []
         i = 0
         stmts = list(stmts)
+        if loop_body:
+            # `if c: A; continue` followed by REST, at the end of a loop body, is `if c: A else: REST`
+            for j_, st_ in enumerate(stmts[:-1]):
+                if isinstance(st_, ast.If) and not st_.orelse and len(st_.body) >= 2 and isinstance(st_.body[-1], ast.Continue) \
+                        and not any(isinstance(n_, (ast.Break, ast.Continue)) for b_ in st_.body[:-1] for n_ in ast.walk(b_)):
+                    new_if = ast.If(test=st_.test, body=st_.body[:-1], orelse=stmts[j_ + 1:])
+                    ast.copy_location(new_if, st_)
+                    stmts = stmts[:j_] + [new_if]
+                    count[0] += 1
+                    break
         while i < len(stmts):
             st = stmts[i]
+            if isinstance(st, ast.If) and st.orelse and isinstance(st.test, ast.UnaryOp) and isinstance(st.test.op, ast.Not):
+                # `if not c: A else: B` is `if c: B else: A`
+                st.test, st.body, st.orelse = st.test.operand, st.orelse, st.body
+                count[0] += 1
             for fld in ('body', 'orelse', 'finalbody'):
                 if isinstance(getattr(st, fld, None), list) and not isinstance(st, (ast.FunctionDef, ast.ClassDef)):
-                    setattr(st, fld, block(getattr(st, fld)))
+                    setattr(st, fld, block(getattr(st, fld), loop_body=(fld == 'body' and isinstance(st, (ast.For, ast.While)))))
             if isinstance(st, ast.Try):
                 for h in st.handlers:
                     h.body = block(h.body)
